@@ -93,12 +93,18 @@ class Run:
         self.level = level
         ns = {n: param.Parameter() for n in NAMES}
         ns['dyn'] = param.Number(default=0.5)       # may hold a value generator; never watched, only triggered
+        # in some instance-level runs the last parameter is a constant: the only assignments it accepts are re-assignments
+        # of the very object it holds (and trigger); they are announced like any other
+        self.const = set()
+        if level == 'instance' and rng.random() < 0.25:
+            ns['p3'] = param.Parameter(default=['held', idx], constant=True)
+            self.const = {'p3'}
         cls = type(f'W{idx}', (param.Parameterized,), ns)
         self.cls = cls
         self.o = cls() if level == 'instance' else cls
         self.model = {}
         for n in NAMES:
-            self.model[(n, 'value')] = None
+            self.model[(n, 'value')] = getattr(self.o, n) if n in self.const else None
             for s in SLOTS:
                 self.model[(n, s)] = None
         self.reg = []
@@ -331,6 +337,9 @@ class Run:
             setattr(self.pobj(name), what, value)
 
     def do_set(self, key, value):
+        if key[0] in self.const and key[1] == 'value':
+            value = self.model[key]
+            self.stats['constant_reassignments'] = self.stats.get('constant_reassignments', 0) + 1
         self.stats['ops'] += 1
         old = self.model[key]
         self.model[key] = value
@@ -641,6 +650,8 @@ class Run:
     def run_op(self, op):
         k = op[0]
         P = self.P
+        if self.const and k in ('update', 'updatectx'):
+            op = (k, {n: (self.model[(n, 'value')] if n in self.const else v) for n, v in op[1].items()}) + tuple(op[2:])
         if k == 'set':
             self.do_set(op[1], op[2])
         elif k == 'setsame':
